@@ -805,8 +805,7 @@ class TexExpr(object):
         >>> expr
         TexExpr('textbf', ['hello', 'world'])
         """
-        self._assert_supports_contents()
-        self._contents.extend(exprs)
+        self.insert(len(self._contents), *exprs)
 
     def insert(self, i, *exprs):
         """Insert content at specified position into expression.
@@ -826,6 +825,10 @@ class TexExpr(object):
         """
         self._assert_supports_contents()
         for j, expr in enumerate(exprs):
+            if isinstance(expr, TexNode):  # store the expression, as parsing does
+                expr = expr.expr
+            elif isinstance(expr, str) and not isinstance(expr, TexExpr):
+                expr = TexText(expr)
             if isinstance(expr, TexExpr):
                 expr.parent = self
             self._contents.insert(i + j, expr)
